@@ -300,6 +300,18 @@ theorem C10_autoinit_scale (val su : Bin) (rule : Nat) (msp : Int) (q : Bool) (t
       (Lemmas.NumbAutoinit.scaled_uniform su.m su.e _).1, (Lemmas.NumbAutoinit.scaled_uniform su.m su.e _).2]
     exact this
 
+/-- **C10_msp_exact**: what the macro `MSP(val)` must deliver (and, since fix 0504c8d, does: the `initnumb` oracle demands
+    exactly this value of the executor's observation): for every finite non-zero double `±m·2^e` (`e ≥ −1074`),
+    `mspExact` is THE integer `k` with `10^k ≤ |val| < 10^(k+1)` — written without division, `|val| = vn/vd`. -/
+theorem C10_msp_exact (v : Bin) (hm : v.m ≠ 0) (he : -1074 ≤ v.e) :
+    10 ^ (mspExact v).toNat * (ratOfBin v.m v.e).2 ≤ (ratOfBin v.m v.e).1 * 10 ^ (-(mspExact v)).toNat ∧
+    (ratOfBin v.m v.e).1 * 10 ^ (-(mspExact v)).toNat < 10 * (10 ^ (mspExact v).toNat * (ratOfBin v.m v.e).2) := by
+  obtain ⟨h1, h2, h3⟩ := Lemmas.NumbAutoinit.ratOfBin_pos v.m v.e hm he
+  have := Lemmas.NumbAutoinit.flog10Rat_spec _ _ h1 h2 h3
+  unfold mspExact
+  simp only [hm, if_false]
+  exact this
+
 /-! ### the base-10⁹ limb level (Model/NumbLimbs.lean) -/
 
 open Model.NumbLimbs Lemmas.NumbLimbPass in
@@ -311,7 +323,7 @@ open Model.NumbLimbs Lemmas.NumbLimbPass in
 theorem C10_limbs_shr_pass (extra s : Nat) (A A' : Arr) (h : shrPass extra s A = some A') (wf : WF A)
     (hord : A.msd ≤ A.lsd + 1) :
     natOfLimbs A'.digits * 2 ^ s = natOfLimbs A.digits ∧ A'.digits.length = A.digits.length ∧ WF A' :=
-  shrPass_spec extra s A A' h wf hord
+  ⟨(shrPass_spec extra s A A' h wf hord).1, (shrPass_spec extra s A A' h wf hord).2.1, (shrPass_spec extra s A A' h wf hord).2.2.1⟩
 
 open Model.NumbLimbs Lemmas.NumbLimbPass in
 /-- **C10_limbs_shl_pass**: a left-shift pass as written (per-limb `(*dig << s) + carry`, `% BBASE`, `/ BBASE`, continued
